@@ -16,7 +16,7 @@ Fixpoint show (v : obj) : string :=
   | Sym s => s
   | L xs => "(" ++ many xs ++ ")"
   | Dot xs t => "(" ++ many xs ++ " . " ++ show t ++ ")"
-  | Vec xs _ adj => "#" ++ (if adj then "" else "!") ++ "(" ++ many xs ++ ")"
+  | Vec xs _ adj _ => "#" ++ (if adj then "" else "!") ++ "(" ++ many xs ++ ")"
   | Arr _ xs _ _ => "#A(" ++ many xs ++ ")"
   | Hash kvs => "#H(" ++ (fix go (l : list (obj * obj)) : string :=
                             match l with [] => "" | (k, w) :: r => show k ++ "=" ++ show w ++ " " ++ go r end) kvs ++ ")"
